@@ -15,7 +15,14 @@ def C(fn, file, anchor, requires=(), ensures=(), **kw):
 C("P8E0::mul", "src/p8e0/ops.rs", r"pub const fn mul\(self, other: Self\) -> Self",
   ensures=[f"|r: &Self| {S}::mul_ok({_b('self')}, {_b('other')}, {_b('r')}, 8, 0)"])
 
-# (repo file to append `mod` to, harness file under /verif/harness)
-MODULES = [
-    ("src/lib.rs", "top.rs"),
-]
+# (repo file to append `mod` to, harness file under /verif/harness).  Harness files not listed here are
+# attached to the crate root (src/lib.rs): they only need crate-visible items.
+_SPECIAL = {
+}
+import glob as _glob, os as _os
+MODULES = []
+for _p in sorted(_glob.glob(_os.path.join(_os.path.dirname(_os.path.abspath(__file__)), "harness", "*.rs"))):
+    _f = _os.path.basename(_p)
+    MODULES.append((_SPECIAL.get(_f, "src/lib.rs"), _f))
+
+PROPERTY_META = {}
